@@ -1790,7 +1790,7 @@ impl<Front: SocketHandler + std::fmt::Debug, L: ListenerHandler + L7ListenerHand
             }
 
             match client.position() {
-                Position::Client(cluster_id, backend, _) => {
+                Position::Client(cluster_id, backend, status) => {
                     let mut backend_borrow = backend.borrow_mut();
                     backend_borrow.dec_connections();
                     gauge_add!(names::backend::CONNECTIONS, -1);
@@ -1810,11 +1810,16 @@ impl<Front: SocketHandler + std::fmt::Debug, L: ListenerHandler + L7ListenerHand
                         Some(cluster_id),
                         Some(&backend_borrow.backend_id)
                     );
-                    let count = self
-                        .context
-                        .backend_streams
-                        .get(token)
-                        .map_or(0, |ids| ids.len());
+                    // the streams of a connection that never got `Connected`
+                    // were never added to `active_requests`
+                    let count = match status {
+                        BackendStatus::Connecting(_) => 0,
+                        _ => self
+                            .context
+                            .backend_streams
+                            .get(token)
+                            .map_or(0, |ids| ids.len()),
+                    };
                     backend_borrow.active_requests =
                         backend_borrow.active_requests.saturating_sub(count);
                     trace!(
